@@ -9,7 +9,11 @@ machine of its callers; which caller checks where comes from the regenerated fac
 
 What is *not* here: that a refused multi-message COPY/MOVE/connector batch leaves the database
 untouched (all-or-nothing) is the transaction rollback of C08's database model plus the lead's
-wire oracle; this file covers the arithmetic, the placement of the checks and the invariant.
+wire oracle; this file covers the arithmetic, the placement of the checks (which limits value, which
+quantity, one write transaction per COPY / MOVE: `limit_quantities_today`) and the invariant.  In the
+model a refusal is the identity on the world (`replace_refused_unchanged`); the wire oracle's judge
+(`Driver/DJudgeLimits.lean`) compares every mailbox's content, UIDs and UIDNEXT before and after
+every refused command against that.
 -/
 import GluonModel.Lemmas.Limits
 import GluonModel.Generated.Facts.Limits
@@ -71,7 +75,8 @@ theorem check_complete (l : IMAP) (existing new : Int) (uid : Nat) (he : 0 ≤ e
 
 /-- **Limits invariant, under the named hypotheses `NoImplicitParents` and `ChecksInsideTx`** — for
     every constructible limit configuration, every world within the limits with no check in
-    flight, and every history of CREATE, in-transaction adds (COPY / MOVE / connector batches),
+    flight, and every history of CREATE, in-transaction adds (connector batches, COPY / MOVE — also
+    onto a destination that already holds `k` of the messages: `replaceTx k n`),
     out-of-transaction check + insert pairs (APPEND), removals and mailbox deletions: *every*
     state the history passes through keeps the number of mailboxes, the number of messages and
     UIDNEXT within the configured maxima. -/
@@ -103,6 +108,65 @@ theorem append_race_witness :
       (runEvs l evs w).count = 2 ∧ ¬ Within l (runEvs l evs w) := by
   refine ⟨by decide, by simp [NoImplicitParents], by simp [ChecksInsideTx, CheckThenInsert], by decide, by decide⟩
 
+/-! ## COPY / MOVE onto a destination that already holds some of the messages -/
+
+/-- **A replaced copy takes no room but consumes a UID** — an accepted COPY / MOVE of `n` messages of
+    which `k` already have a copy in the destination leaves `count - k + n` messages and advances
+    UIDNEXT by the full `n`, whatever `k` is (repeating a COPY consumes UIDs without growth). -/
+theorem replace_accepted (l : IMAP) (w : World) (k n : Nat)
+    (h : msgChecks l { w with count := w.count - k } n = true) :
+    step l w (.replaceTx k n) = { w with count := w.count - k + n, uidNext := w.uidNext + n } := by
+  simp [step, h]
+
+/-- **A refused COPY / MOVE has no partial effect** — when a check fails the world is exactly what it
+    was; in particular the `k` copies the destination held are still there (their removal is part of
+    the refused transaction). -/
+theorem replace_refused_unchanged (l : IMAP) (w : World) (k n : Nat)
+    (h : msgChecks l { w with count := w.count - k } n = false) :
+    step l w (.replaceTx k n) = w := by
+  simp [step, h]
+
+/-- **COPY / MOVE with duplicates keeps the limits** — from any world within the limits, for every
+    `k` and `n`: the message count and UIDNEXT stay within the maxima (no hypothesis on the history:
+    checks and insert are one transaction). -/
+theorem replace_within (l : IMAP) (hl : U32Limits l) (w : World) (hw : Within l w) (k n : Nat)
+    (hn : (n : Int) < 2 ^ 63) : Within l (step l w (.replaceTx k n)) := by
+  simp only [step]
+  split
+  · rename_i hck
+    have hw' : Within l { w with count := w.count - k } := by
+      unfold Within at *
+      simp only
+      omega
+    have := msgChecks_sound l hl _ hw' n hn hck
+    simp only at this
+    unfold Within at *
+    simp only [Int.natCast_add]
+    omega
+  · exact hw
+
+/-- **Fitting COPY / MOVE with duplicates is accepted** — if the destination without the `k` stale
+    copies has room for `n` more and `n` further UIDs are available, the step is not refused. -/
+theorem replace_complete (l : IMAP) (hl : U32Limits l) (w : World) (k n : Nat)
+    (h1 : ((w.count - k : Nat) : Int) + n ≤ l.maxMessageCountPerMailbox) (h2 : (w.uidNext : Int) + n ≤ l.maxUID) :
+    step l w (.replaceTx k n) = { w with count := w.count - k + n, uidNext := w.uidNext + n } := by
+  apply replace_accepted
+  unfold U32Limits at hl
+  have := check_complete l ((w.count - k : Nat) : Int) n w.uidNext (by omega) (by omega) h1 h2 (by omega) (by omega)
+  simp [msgChecks, this.1, this.2]
+
+/-- **The UID check has to count the replaced copies** — maximum UID 7, destination with 3 messages
+    and UIDNEXT 7, COPY of the same 3 messages again (`k = n = 3`): a UID check on the `n - k = 0`
+    messages that take additional room would pass, yet the insert hands out the UIDs 7, 8, 9.  The
+    machine (the source as it is: both checks on the full `n`) refuses and changes nothing. -/
+theorem uid_check_counts_duplicates_witness :
+    let l := newIMAPLimits 10 5 7 100
+    let w : World := { mailboxes := 2, count := 3, uidNext := 7, passed := [] }
+    Within l w ∧ checkUIDCount l w.uidNext ((3 - 3 : Nat) : Int) = none ∧
+      checkMailBoxMessageCount l w.count ((3 - 3 : Nat) : Int) = none ∧
+      ¬ ((w.uidNext : Int) + 3 ≤ l.maxUID) ∧ step l w (.replaceTx 3 3) = w := by
+  decide
+
 /-! ## what the source does today (regenerated facts) -/
 
 /-- **Placement of the checks in the current source** (by `decide` over the regenerated table):
@@ -129,14 +193,58 @@ theorem limit_sites_today :
            "State.actionCreateRecoveredMessage", "State.Rename"]) := by
   decide
 
+/-- **Which limits, which quantity, how many transactions** (by `decide` over the regenerated tables):
+    1. every `Check*` is called on the configured limits — a `….imapLimits` field (set from
+       `gluon.WithIMAPLimits`) or a `limits.IMAP` parameter handed down (item 4) — never on
+       `limits.DefaultLimits()` or a local value;
+    2. the quantity of every message-count / UID check is the literal 1 (APPEND) or `len` of a slice
+       parameter of the function, and that very slice is what the function then inserts
+       (`tx.AddMessagesToMailbox(…, p)`): no check on a discounted or otherwise derived number
+       (cf. `uid_check_counts_duplicates_witness`); an unknown shape fails here;
+    3. the shared insertion helpers with a limits parameter are called from exactly these five
+       functions;
+    4. every argument passed for a `limits.IMAP` parameter anywhere in internal/state,
+       internal/backend, internal/session and the root package is a configured field or a
+       passed-through parameter;
+    5. `Mailbox.Copy` and `Mailbox.Move` open exactly one write transaction each: de-duplication,
+       checks, removal from the source and insertion commit or roll back together
+       (`replace_refused_unchanged` is the model's statement of that). -/
+theorem limit_quantities_today :
+    (∀ s ∈ Facts.limitCheckSites, s.limitsKind = "configured" ∨ s.limitsKind = "param") ∧
+    ((∀ s ∈ Facts.limitCheckSites, s.quantity = "n/a" ∨ s.quantity = "one" ∨ s.quantity = "len-of-param") ∧
+      (Facts.limitCheckSites.all fun s => s.quantity != "len-of-param" ||
+        Facts.limitInsertSites.any fun i => i.func == s.func && i.kind == "message" && i.what == s.quantityOf) = true) ∧
+    ((Facts.limitArgSites.filter (fun a => a.callee == "state.AddMessagesToMailbox" || a.callee == "state.MoveMessagesFromMailbox")).map (·.func)
+        = ["user.applyMessagesAddedToMailbox", "user.applyMessageUpdated", "State.actionAddMessagesToMailbox",
+           "State.actionAddRecoveredMessagesToMailbox", "State.actionMoveMessages"]) ∧
+    (∀ a ∈ Facts.limitArgSites, a.kind = "configured" ∨ a.kind = "param") ∧
+    ((Facts.mailboxTxShapes.filter (fun s => s.func == "Mailbox.Copy" || s.func == "Mailbox.Move")).map (fun s => (s.func, s.writes))
+        = [("Mailbox.Copy", 1), ("Mailbox.Move", 1)]) := by
+  decide
+
+-- non-vacuity of `replace_accepted` / `replace_within` / `replace_complete`: the same three messages copied a second
+-- time into a full mailbox (k = n = 3) are accepted and consume three UIDs
+example :
+    let l := newIMAPLimits 10 3 10 100
+    let w : World := { mailboxes := 2, count := 3, uidNext := 4, passed := [] }
+    U32Limits l ∧ Within l w ∧ step l w (.replaceTx 3 3) = { w with uidNext := 7 } := by
+  decide
+
+-- non-vacuity of `replace_refused_unchanged`: one duplicate, two further messages, room for one
+example :
+    let l := newIMAPLimits 10 3 100 100
+    let w : World := { mailboxes := 2, count := 3, uidNext := 4, passed := [] }
+    msgChecks l { w with count := w.count - 1 } 2 = false ∧ step l w (.replaceTx 1 2) = w := by
+  decide
+
 -- non-vacuity of `limits_invariant_partial`: a history that satisfies all hypotheses and fills the
 -- mailbox exactly to its limit, then is refused
 example :
     let l := newIMAPLimits 2 3 100 100
     let w : World := { mailboxes := 1, count := 0, uidNext := 1, passed := [] }
-    let evs : List Ev := [.create 0, .create 0, .addTx 2, .check 7 1, .insert 7, .addTx 1, .remove 1, .addTx 1]
+    let evs : List Ev := [.create 0, .create 0, .addTx 2, .check 7 1, .insert 7, .addTx 1, .remove 1, .addTx 1, .replaceTx 2 2]
     U32Limits l ∧ Within l w ∧ NoImplicitParents evs ∧ ChecksInsideTx evs ∧ EvsInt64 evs ∧
-      runEvs l evs w = { mailboxes := 2, count := 3, uidNext := 5, passed := [] } := by
+      runEvs l evs w = { mailboxes := 2, count := 3, uidNext := 7, passed := [] } := by
   refine ⟨by decide, by decide, by simp [NoImplicitParents], by simp [ChecksInsideTx, CheckThenInsert],
     by simp [EvsInt64], by decide⟩
 
